@@ -158,6 +158,9 @@ def run(chk, facts):
     except AnchorError as e:
         chk.anchor_fail("R-C20-4", e)
     accumulators(chk, facts, "R-C20-5")
+    chk.rule("R-C20-6", "no element is dropped before it is compared: every zip/take/skip in the checker is length-guarded or reviewed (shared census)")
+    from .quant import truncation_census
+    truncation_census(chk, facts, "R-C20-6")
     chk.assume("transitivity through the parent graph and generics, the tuple special case and associativity of union around None are not decided (ND)")
     chk.notes.append("C20: the relation extracted from the source is model-checked on a finite universe by evaluating the extracted formula (the code is not run).")
 
